@@ -84,6 +84,9 @@ def run(ctx: Ctx):
                         continue
                     plan.append((f"{ba}{nb}", f"{oa}{no}", radii, False))
     plan += [("8", "12", [0.2, 0.3], True), ("5", "7", [0.15, 0.3, 0.5], True)]
+    # sizes that coincide / mirror each other (n_b = n_o*n_t; (2,10) and (10,2)), and a pure-rotation grid with one position
+    plan += [("6", "3", [0.2, 0.3], False), ("2", "5", [0.2, 0.3], False), ("10", "2", [0.3], False), ("8", "1", [0.3], False),
+             ("cube4D_5", "1", [0.3], False)]
     recs = []
     for b, o, radii, cart in plan:
         recs.append(record(b, o, radii, cart, rng))
